@@ -183,11 +183,13 @@ impl TulispObject {
     /// Attaches the other list to the end of self.  Returns an Error if `self`
     /// is not a list.
     pub fn append(&self, other_list: TulispObject) -> Result<&TulispObject, Error> {
-        self.rc
-            .borrow_mut()
-            .append(other_list)
-            .map(|_| self)
-            .map_err(|e| e.with_trace(self.clone()))
+        // Take the copy that gets attached before `self` is borrowed for the
+        // update: `other_list` may be `self`, or share cells with it.
+        let copy = other_list
+            .deep_copy()
+            .map_err(|e| e.with_trace(self.clone()))?;
+        let res = self.rc.borrow_mut().attach(copy);
+        res.map(|_| self).map_err(|e| e.with_trace(self.clone()))
     }
 
     /// Returns a string representation of `self`, similar to the Emacs Lisp
